@@ -40,6 +40,7 @@ pub struct Pools {
     pub kana: Vec<char>,
     pub kanji: Vec<char>,
     pub wide: Vec<char>,
+    pub greek: Vec<char>,
     pub rejected: usize,
 }
 
@@ -75,11 +76,14 @@ pub fn pools() -> &'static Pools {
         wide.extend(take(0x2010, 0x2312, if small { 97 } else { 1 }));
         wide.extend(take(0x0391, 0x0451, if small { 31 } else { 1 }));
         wide.extend(take(0x2460, 0x2473, if small { 7 } else { 1 }));
+        let mut greek = take(0x0391, 0x0451, if small { 13 } else { 1 });
+        greek.extend(take(0x00a7, 0x00f7, if small { 9 } else { 1 }));
         Pools {
             ascii,
             kana,
             kanji,
             wide,
+            greek,
             rejected,
         }
     })
@@ -89,7 +93,7 @@ pub fn pools() -> &'static Pools {
 pub fn gen_sjis(rng: &mut Rng, max_chars: usize) -> String {
     let p = pools();
     let n = rng.range(0, max_chars);
-    let style = rng.below(6);
+    let style = rng.below(7);
     let mut s = String::new();
     for _ in 0..n {
         let pool: &Vec<char> = match style {
@@ -108,7 +112,15 @@ pub fn gen_sjis(rng: &mut Rng, max_chars: usize) -> String {
                 2 => &p.kanji,
                 _ => &p.wide,
             },
-            _ => &p.wide,
+            5 => &p.wide,
+            _ => {
+                // two-byte-in-UTF-8 letters (Latin-1 symbols, Greek, Cyrillic) mixed with ASCII
+                if rng.chance(2, 5) {
+                    &p.ascii
+                } else {
+                    &p.greek
+                }
+            }
         };
         if pool.is_empty() {
             s.push('x');
